@@ -62,8 +62,12 @@ def lint_all(arg):
             vs = Orchestrator(project_root=Path(root)).lint_files([Path(root) / f for f in order])
         out["v"] = sorted([v.rule_id, os.path.relpath(str(v.file_path), root) if os.path.isabs(str(v.file_path)) else str(v.file_path), v.line, v.column, v.message[:200]] for v in vs)
     except BaseException as e:  # noqa: BLE001
+        import traceback
+
         out["v"] = None
         out["raised"] = "%s: %s" % (type(e).__name__, str(e)[:200])
+        fams = [m.group(1) for fr in traceback.extract_tb(e.__traceback__) for m in [re.search(r"/src/linters/([a-z_]+)/", fr.filename)] if m]
+        out["raised_in"] = fams[-1] if fams else "core"
     out["swallowed"] = runner._read_faillog(faillog)
     return out
 
@@ -245,8 +249,8 @@ def run(ctx):
         ctx.count("mclass:" + case["mclass"].split("-")[0].split("+")[0])
         ctx.nontrivial([case["mclass"], case["lang"]])
         if v["raised"]:
-            ctx.discrepancy(raised_key(v["raised"]), "%s%s: lint_directory raised %s (the CLI turns this into exit 2 for every command)" % (
-                case["id"], " token %r" % case.get("token") if case.get("token") else "", v["raised"]), rep, files)
+            ctx.discrepancy(raised_key(v["raised"]) + ":" + v.get("raised_in", "core"), "%s%s: lint_directory raised %s in rule family %s (the CLI turns this into exit 2 for every command)" % (
+                case["id"], " token %r" % case.get("token") if case.get("token") else "", v["raised"], v.get("raised_in", "core")), rep, files)
             continue
         seen = set()
         for s in v["swallowed"]:
